@@ -40,6 +40,7 @@ class Conn:
         self.style = cfg['style']
         self.bufsize = cfg.get('bufsize', 8192)
         self.on_reject = cfg.get('on_reject', 'continue')
+        self.scribble = bool(cfg.get('scribble'))
         self.reply = cfg.get('reply')          # reverse conn id or None
         self.sizes = cfg.get('sizes') or [1 << 30]
         self.gaps = cfg.get('gaps') or [0.0]
@@ -193,7 +194,7 @@ class P2PNet(Engine):
         return {'src': src, 'dst': dst, 'style': rng.choice(STYLES),
                 'bufsize': rng.choice([1, 2, 7, 16, 24, 25, 64, 512, 8192, 65536]),
                 'on_reject': rng.choice(['continue', 'continue', 'stop']),
-                'sizes': self._gen_sizes(rng), 'gaps': self._gen_gaps(rng), 'reply': None}
+                'sizes': self._gen_sizes(rng), 'gaps': self._gen_gaps(rng), 'reply': None, 'scribble': rng.random() < 0.3}
 
     def _gen_fault(self, rng, kind):
         if kind == 'xor':
@@ -567,9 +568,48 @@ class P2PNet(Engine):
 
     def _record(self, c, kind, start, end, obj=None, exc=None):
         o = {'kind': kind, 'start': start, 'end': end, 'exc': exc, 'obj': obj}
+        if obj is not None and getattr(c, 'scribble', False):
+            # this receiver takes what it needs from a message at once (field values, re-framed bytes) and
+            # then re-uses the object as scratch space; it also keeps every message it ever received.
+            # Whatever is parsed later must come from the later frame's bytes alone.
+            try:
+                o['spec'] = conv.spec_from_msg(obj)
+            except Exception as e:
+                o['spec_exc'] = e
+            try:
+                o['reframed'] = obj.to_bytes()
+            except Exception as e:
+                o['reframed'] = repr(e).encode()
+            self._scribble(obj)
+            self.ctx.fault('receiver-scribbles-on-parsed-message')
         c.outcomes.append(o)
         self.ctx.log(self.q.now, c.dst, 'outcome', [c.cid, start, end], kind + (':' + exc if exc else ''))
         return o
+
+    @staticmethod
+    def _scribble(obj):
+        for name, fn in (('nonce', lambda v: (v ^ 0xffff) & 0xffffffffffffffff), ('nVersion', lambda v: v + 1), ('nStartingHeight', lambda v: 0),
+                         ('hashstop', lambda v: b'\x5a' * 32), ('message', lambda v: b'scribble'), ('strSubVer', lambda v: b'/x/')):
+            if hasattr(obj, name):
+                try:
+                    setattr(obj, name, fn(getattr(obj, name)))
+                except Exception:
+                    pass
+        for name in ('inv', 'addrs', 'headers'):
+            lst = getattr(obj, name, None)
+            if isinstance(lst, list):
+                if lst:
+                    lst.append(lst[0])
+                    del lst[0]
+                lst.extend(lst[:1])
+        if hasattr(obj, 'locator') and isinstance(getattr(obj.locator, 'vHave', None), list):
+            obj.locator.vHave.append(b'\x11' * 32)
+        for name in ('tx', 'block'):
+            if hasattr(obj, name):
+                try:
+                    setattr(obj, name, None)
+                except Exception:
+                    pass
 
     def _blocking_receiver(self, c):
         M = self.M
@@ -716,7 +756,9 @@ class P2PNet(Engine):
                               expected=rk, type=t, got=g['kind'], exc=g.get('exc'), **det)
                     return
                 try:
-                    gs = conv.spec_from_msg(g['obj'])
+                    if 'spec_exc' in g:
+                        raise g['spec_exc']
+                    gs = g['spec'] if 'spec' in g else conv.spec_from_msg(g['obj'])
                 except Exception as e:
                     ctx.check(False, 'C18.parse', 'pipe %d outcome %d: parsed %s object unusable: %r' % (c.cid, k, t, e), type=t, **det)
                     return
@@ -730,7 +772,7 @@ class P2PNet(Engine):
                 if RP.encode(r['spec'], chain) == fb:
                     self._enter(c.dst)
                     try:
-                        again = g['obj'].to_bytes()
+                        again = g['reframed'] if 'reframed' in g else g['obj'].to_bytes()
                     except Exception as e:
                         again = repr(e).encode()
                     ctx.carry()
